@@ -397,6 +397,30 @@ def parse_alloc_sites(files):
     return sites
 
 
+CACHE = os.path.join(os.path.dirname(os.path.abspath(__file__)), "tables_cache.txt")
+STATUS = os.path.join(os.path.dirname(os.path.dirname(os.path.abspath(__file__))), "work", "translate_status.json")
+
+
+def load_cache():
+    import ast
+    try:
+        return ast.literal_eval(open(CACHE).read())
+    except Exception:
+        return {}
+
+
+def save_state(cache, status):
+    import json, pprint
+    # the cache only moves forward when EVERY section was re-derived (so that it always holds one
+    # coherent derivation), and never at run time of a check on a modified tree unless asked to
+    if all(v == "ok" for v in status.values()) and os.environ.get("VERIF_UPDATE_TABLES_CACHE") == "1":
+        with open(CACHE, "w") as f:
+            f.write(pprint.pformat(cache, width=160))
+    os.makedirs(os.path.dirname(STATUS), exist_ok=True)
+    with open(STATUS, "w") as f:
+        json.dump(status, f, indent=1)
+
+
 # ------------------------------------------------------------------ emit
 def emit():
     files = {
@@ -406,14 +430,38 @@ def emit():
             "record/multipoint.rs", "record/polyline.rs", "record/polygon.rs", "record/multipatch.rs",
         ]
     }
-    names, variants, arms, preds, dnames = parse_shapetype(files["lib.rs"])
-    svariants, st_arms, disp, conv = parse_shape_tables(files["record/mod.rs"])
-    hst = parse_has_shapetype(files)
-    in_bytes, records = parse_sizes(files)
-    ptsizes = parse_point_read_sizes(files["record/point.rs"])
-    parms, pwr, prd, pclose = parse_patch(files["record/multipatch.rs"])
-    consts = parse_consts(files)
-    alloc_sites = parse_alloc_sites(files)
+    # Each section is re-derived from the source independently.  A section whose source can no
+    # longer be parsed keeps the value of its last successful derivation (tools/tables_cache.txt,
+    # committed) and is reported in work/translate_status.json: for the properties that rest on it
+    # the tie to the source is then established by the correspondence only, and check.py treats it
+    # as a broken proof obligation for exactly those properties.
+    cache = load_cache()
+    status = {}
+    def section(name, thunk):
+        try:
+            try:
+                v = thunk()
+            except TranslateError:
+                raise
+            except Exception as e:      # a parser tripping over unexpected syntax
+                raise TranslateError(f"{name}: {type(e).__name__}: {e}")
+            cache[name] = v
+            status[name] = "ok"
+            return v
+        except TranslateError as e:
+            if name not in cache:
+                raise
+            status[name] = f"not re-derived ({e}); last successful derivation reused"
+            return cache[name]
+    names, variants, arms, preds, dnames = section("shapetype", lambda: parse_shapetype(files["lib.rs"]))
+    svariants, st_arms, disp, conv = section("shape_tables", lambda: parse_shape_tables(files["record/mod.rs"]))
+    hst = section("has_shapetype", lambda: parse_has_shapetype(files))
+    in_bytes, records = section("sizes", lambda: parse_sizes(files))
+    ptsizes = section("point_sizes", lambda: parse_point_read_sizes(files["record/point.rs"]))
+    parms, pwr, prd, pclose = section("patch", lambda: parse_patch(files["record/multipatch.rs"]))
+    consts = section("consts", lambda: parse_consts(files))
+    alloc_sites = section("alloc_sites", lambda: parse_alloc_sites(files))
+    save_state(cache, status)
 
     L = []
     A = L.append
